@@ -345,6 +345,7 @@ func runCase(t *testing.T, sc scenario, order [][2]int, burst int) (live, cold s
 	for _, o := range sc.Base {
 		finalObjs[key(o)] = o
 	}
+	engine.GCPoint(20)
 	synctest.Test(t, func(t *testing.T) {
 		w := newWorld(t, sc.Base)
 		for i, o := range order {
@@ -372,6 +373,7 @@ func runCase(t *testing.T, sc scenario, order [][2]int, burst int) (live, cold s
 	if c, ok := coldMemo[mk]; ok {
 		return live, c, labels
 	}
+	engine.GCPoint(20)
 	synctest.Test(t, func(t *testing.T) {
 		var objs []runtime.Object
 		for _, k := range ks {
